@@ -292,6 +292,16 @@ CLAIMED = {
              "is touched and not otherwise.",
         technique="Coq proof (round trip render/read for all names, exactness of the de-duplicated list) + real dependency files read by the model and by GNU make",
         design_ref="DESIGN.md §3 C25"),
+    "C24": dict(
+        text="S1: the `exec \"$@\" ...` line of run-with as wild renders it (plain words bare, everything else in single quotes with the quote idiom, copied inputs as \"$D\"/<quoted path>, "
+             "--opt=<file> as quoted prefix + the same, the output as -o \"$OUT\") and a model of a POSIX shell reading it (single quotes, backslash, double-quoted $NAME, blank separation, "
+             "backslash-newline). Theorem: for every list of arguments over all bytes and every value of D and OUT the shell reads back exactly the recorded command; corollary for one "
+             "argument; the escaping wild used before is refuted.",
+        note="Partial: which files get copied and the rewriting of paths inside linker scripts are not modelled; response-file contents are not modelled. Tie: generated commands with hostile "
+             "names in every argument form, linked with WILD_SAVE_DIR, originals moved away, run-with replayed elsewhere with OUT set: byte-identical output; the exec line of every real "
+             "script is read by the Coq reader and by bash and compared with the recorded command.",
+        technique="Coq proof (quoting / shell-reading round trip for all byte strings) + real bundles replayed byte for byte, scripts read by the model and by bash",
+        design_ref="DESIGN.md §3 C24"),
     "C10": dict(
         text="S1: Gallina model of what wild writes for unwinding (an FDE is kept iff the section its pc-begin points into was loaded and is not empty; one search-table entry per kept FDE with "
              "hdr-relative signed start and FDE pointer; the table sorted by the signed start) and of the consumer (the last entry with start <= pc, then the range check — what libgcc's binary "
